@@ -146,11 +146,18 @@ func processState(c Combo, ops []Op, merged []Merged, h []int, opt Options, r *k
 				if len(obs) == 0 {
 					what = "private-state-only"
 				}
-				if len(obs) > 8 {
-					obs = append(obs[:8], fmt.Sprintf("... and %d more sections", len(obs)-8))
+				var names []string
+				for _, o := range obs {
+					names = append(names, o[:strings.Index(o, ":\n")])
 				}
-				r.Violate(class+":world-changed("+what+")", "history: %s\ncall: %s\nreturned error: %v\nexpected: every answer and the private state as before the call\nobserved differences (A = before, B = after):\n%s\nprivate state:\n%s",
-					here, call, err, strings.Join(obs, "\n"), priv)
+				if len(obs) > 3 {
+					obs = obs[:3]
+				}
+				for k := range obs {
+					obs[k] = clipLines(obs[k], 420)
+				}
+				r.Violate(class+":world-changed("+what+")", "history: %s\ncall: %s\nreturned error: %v\nexpected: every answer and the private state as before the call\nsections answering differently: %v\nfirst differences (A = before, B = after):\n%s\nprivate state:\n%s",
+					here, call, err, names, strings.Join(obs, "\n"), priv)
 			}
 		} else if Private(sys.W, true) != privBefore {
 			dirty = true
@@ -161,7 +168,7 @@ func processState(c Combo, ops []Op, merged []Merged, h []int, opt Options, r *k
 		if opt.Validate {
 			if ps := ValidateWorld(sys.W); len(ps) > 0 {
 				dirty = true
-				r.Violate(class+":left-invalid:"+ProblemClasses(ps), "history: %s\ncall: %s\nreturned error: %v\nafterwards the world holds: %s", here, call, err, ProblemsString(ps))
+				r.Violate(class+":left-invalid", "history: %s\ncall: %s\nreturned error: %v\nafterwards the world holds: %s", here, call, err, ProblemsString(ps))
 			}
 		}
 		return dirty
@@ -195,7 +202,7 @@ func processState(c Combo, ops []Op, merged []Merged, h []int, opt Options, r *k
 				st = "model-holds-it-valid"
 				r.Count("add-rejected-though-model-valid:"+op.Cat, 1)
 			}
-			if afterError(call, wt+".AddFeature:rejected("+st+")", err) {
+			if afterError(call+" [model: "+st+"]", wt+".AddFeature:rejected", err) {
 				sys = rebuild()
 			}
 			r.AddOutcome("add:rejected:" + st)
@@ -211,16 +218,25 @@ func processState(c Combo, ops []Op, merged []Merged, h []int, opt Options, r *k
 				r.AddOutcome("add:accepted-though-invalid:" + stage)
 				r.Count("add-accepted-though-model-invalid:"+res+":"+op.Cat, 1)
 				if opt.Validate {
-					if len(ps) > 0 {
-						r.Violate(fmt.Sprintf("%s.AddFeature:accepted(%s;replaces:%s):%s", wt, stage, res, ProblemClasses(ps)),
+					verdict := "accepted"
+					if stage == "referrer-becomes-invalid" && res == "base-only" {
+						verdict = "accepted(replaced-feature-lives-only-in-the-base)"
+					}
+					switch {
+					case len(ps) > 0:
+						r.Violate(RootClass(wt+".AddFeature", "AddFeature", verdict, ps),
 							"history: %s\ncall: %s\nreturned: nil (accepted)\nexpected: an error, or a world that still holds only valid features\nafterwards the world holds: %s", here, call, ProblemsString(ps))
-					} else {
+					case c.Kind == KOverlayBase && onlyUnlocated(probs):
+						// the overlay still resolves the location through the base (overlay shadowing is C16's
+						// subject): by the world's own answers every path point resolves, so nothing is reported
+						r.Count("accepted:location-less-point-still-resolves-through-base", 1)
+					default:
 						r.Violate("harness:model-invalid-but-world-validator-silent", "history: %s\ncall: %s\nmodel problems: %s", here, call, ProblemsString(probs))
 					}
 				}
 			default:
 				if len(ps) > 0 {
-					r.Violate(fmt.Sprintf("%s.AddFeature:accepted-valid-feature-but-world-invalid(replaces:%s):%s", wt, res, ProblemClasses(ps)),
+					r.Violate(fmt.Sprintf("%s.AddFeature:accepted-valid-feature-but-world-invalid:%s", wt, ProblemClasses(ps)),
 						"history: %s\ncall: %s\nreturned: nil\nthe model holds the result valid, but the world holds: %s", here, call, ProblemsString(ps))
 				} else {
 					out = append(out, succ{i, sys.Key()})
@@ -270,7 +286,7 @@ func processState(c Combo, ops []Op, merged []Merged, h []int, opt Options, r *k
 			}
 			if opt.Validate {
 				if ps := ValidateWorld(sys.W); len(ps) > 0 {
-					r.Violate("MergedChange.Apply("+wt+"):applied:"+ProblemClasses(ps), "history: %s\ncall: %s\nreturned: nil\nafterwards the world holds: %s", here, call, ProblemsString(ps))
+					r.Violate(RootClass("MergedChange.Apply("+wt+")", "MergedChange", "applied", ps), "history: %s\ncall: %s\nreturned: nil\nafterwards the world holds: %s", here, call, ProblemsString(ps))
 				}
 			}
 			sys = rebuild()
@@ -279,6 +295,28 @@ func processState(c Combo, ops []Op, merged []Merged, h []int, opt Options, r *k
 
 	checkBase()
 	return out
+}
+
+// onlyUnlocated: every model problem is a point without a location. A
+// MutableOverlayWorld answers FindLocationByID from its base when its own
+// (shadowing) point feature carries no location, so such paths do resolve.
+func onlyUnlocated(ps []Problem) bool {
+	for _, p := range ps {
+		if !strings.HasSuffix(p.Class, "point-without-location") {
+			return false
+		}
+	}
+	return len(ps) > 0
+}
+
+func clipLines(s string, n int) string {
+	lines := strings.Split(s, "\n")
+	for i, l := range lines {
+		if len(l) > n {
+			lines[i] = l[:n] + "…"
+		}
+	}
+	return strings.Join(lines, "\n")
 }
 
 func posName(k, n int) string {
